@@ -1178,7 +1178,13 @@ fn gen_link_set(rng: &mut Rng, id: u64) -> (Vec<LinkObj>, Vec<(usize, u64, Strin
             if s.shndx != 0 {
                 continue;
             }
+            // in every other set the untyped symbols are only referred to through GLOB_DAT, the
+            // one relocation the linker skips silently when it cannot resolve the symbol
+            let glob_only = (id / 3) % 2 == 1 && lib_dyn.iter().any(|l| l.name == s.name && l.typ == 0);
             for typ in [1u32, 6, 7] {
+                if glob_only && typ != 6 {
+                    continue;
+                }
                 let r = Rel { off: data + 4 * slot, sym: (i + 1) as u32, typ };
                 slot += 1;
                 relocs.push((0, r.off, s.name.clone()));
@@ -1194,7 +1200,9 @@ fn gen_link_set(rng: &mut Rng, id: u64) -> (Vec<LinkObj>, Vec<(usize, u64, Strin
             if own && !rng.chance(1, 3) {
                 continue;
             }
-            let r = Rel { off: ldata + 4 * slot, sym: (i + 1) as u32, typ: if rng.bool() { 6 } else { 1 } };
+            let untyped = exe_exports.iter().chain(lib_dyn.iter()).any(|d| d.name == s.name && d.typ == 0);
+            let typ = if (id / 3) % 2 == 1 && untyped { 6 } else if rng.bool() { 6 } else { 1 };
+            let r = Rel { off: ldata + 4 * slot, sym: (i + 1) as u32, typ };
             slot += 1;
             relocs.push((1, r.off, s.name.clone()));
             lib.dynrel.push(r);
